@@ -334,6 +334,7 @@ TypeOneDRule TasmanianSparseGrid::getRule() const{ return (base) ? base->getRule
 const char* TasmanianSparseGrid::getCustomRuleDescription() const{ return (isGlobal()) ? get<GridGlobal>()->getCustomRuleDescription() : ""; }
 
 void TasmanianSparseGrid::getLoadedPoints(double *x) const{
+    if (getNumLoaded() == 0) return; // e.g., grids with zero outputs keep their points but report no loaded ones
     base->getLoadedPoints(x);
     formTransformedPoints(base->getNumLoaded(), x);
 }
